@@ -871,6 +871,24 @@ static void cmd_mm(const std::vector<std::string> &tk)
 // main loop
 // ---------------------------------------------------------------------
 
+static const char* errName(MEDDLY::error::code c)
+{
+#define EN(X) case MEDDLY::error::X: return #X;
+    switch (c) {
+        EN(UNINITIALIZED) EN(ALREADY_INITIALIZED) EN(NOT_IMPLEMENTED)
+        EN(INSUFFICIENT_MEMORY) EN(INVALID_OPERATION) EN(INVALID_VARIABLE)
+        EN(INVALID_LEVEL) EN(INVALID_BOUND) EN(INVALID_ITERATOR)
+        EN(DOMAIN_NOT_EMPTY) EN(UNKNOWN_OPERATION) EN(DOMAIN_MISMATCH)
+        EN(FOREST_MISMATCH) EN(TYPE_MISMATCH) EN(WRONG_NUMBER)
+        EN(VALUE_OVERFLOW) EN(DIVIDE_BY_ZERO) EN(SUBTRACT_INFINITY)
+        EN(INFINITY_DIV_INFINITY) EN(INVALID_POLICY) EN(INVALID_ASSIGNMENT)
+        EN(INVALID_ARGUMENT) EN(INVALID_OPTION) EN(INVALID_FILE)
+        EN(COULDNT_READ) EN(COULDNT_WRITE) EN(MISCELLANEOUS)
+        default: return "UNKNOWN";
+    }
+#undef EN
+}
+
 static void run(const std::vector<std::string> &tk)
 {
     const std::string &c = tk[0];
@@ -935,7 +953,7 @@ int main(int argc, char** argv)
             run(tk);
         }
         catch (MEDDLY::error e) {
-            emit(std::string("ERR ") + e.getName());
+            emit(std::string("ERR ") + errName(e.getCode()));
         }
         catch (Bad b) {
             fprintf(stderr, "script error line %d: %s\n", LINE, b.msg.c_str());
